@@ -998,3 +998,14 @@ def run_narrow_lattice(ctx):
 
 def run_narrow_dict(ctx):
     run_narrow(ctx, lambda fn: "tokenizer::" not in fn and "token::" not in fn)
+
+
+def run_errprop(ctx):
+    """ERRPROP on the builder paths: no parser error is dropped, `.ok()`-ed or defaulted (a
+    swallowed parse error would silently mis-assign ids, costs or character categories)."""
+    import r_codec
+    crate = ctx.facts("A").lib
+    cg = CallGraph(crate)
+    reach = set(cg.reachable(ENTRY))
+    r_codec.errprop_rule(ctx, lambda f: f.path in reach and f.krate == "vibrato", "builder",
+                         cfgs=("A",), floor=40)
